@@ -1,4 +1,65 @@
-(* placeholder until the theorems land *)
-From LV Require Import Base.Bytes Model.Client.
-Theorem C14_placeholder : True. Proof. exact I. Qed.
-Print Assumptions C14_placeholder.
+(* C14  Authentication picks an offered mechanism and encodes credentials exactly.  Statements only. *)
+From Coq Require Import Strings.String.
+From LV Require Import Base.Bytes Base.Str Base.Res Base.Base64 Model.Response Model.ServerInfo Model.Auth
+  Model.Client Proofs.ClientProofs Proofs.AuthProofs Proofs.Base64Proofs.
+
+(* the mechanism used is the first of the preference list that the server advertised *)
+Theorem C14_choice : forall (i : sinfo) (ms : list mech) (m : mech),
+  get_auth_mechanism i ms = Some m <->
+  exists pre post, ms = pre ++ m :: post /\ supports_mech i m = true /\
+                   Forall (fun x => supports_mech i x = false) pre.
+Proof. exact get_auth_first. Qed.
+
+(* Everything auth() writes, for every credentials pair, preference list and peer script:
+   nothing at all if no mechanism is common (a client error, state untouched); otherwise the
+   initial AUTH line of the chosen mechanism, then at most ten lines each of which is the base64
+   of exactly the user name or exactly the password (only LOGIN answers challenges), then
+   possibly QUIT.  Never a panic.  So any challenge sequence ends after at most ten challenges. *)
+Theorem C14_only_credentials : forall (ms : list mech) (u p : bytes) (s : cst),
+  shut s = false -> panic s = false ->
+  match get_auth_mechanism (info s) ms with
+  | None => auth ms u p s = (Err (e_client "No compatible authentication mechanism was found"), s)
+  | Some m =>
+    exists init us tail,
+      auth_initial m u p = Ok init /\
+      new_units s (snd (auth ms u p s)) (ULine init :: us ++ tail) /\
+      Forall (cred_unit u p) us /\ (length us <= 10)%nat /\
+      (tail = [] \/ tail = [ULine QUIT]) /\ (us <> [] -> m = Login) /\
+      fst (auth ms u p s) <> Panic
+  end.
+Proof. exact auth_units. Qed.
+
+(* the initial lines: RFC 4616 message, LOGIN without initial response, XOAUTH2 bearer string *)
+Theorem C14_initial_lines : forall (m : mech) (u p : bytes), exists init,
+  auth_initial m u p = Ok init /\
+  init = match m with
+         | Plain => bs "AUTH PLAIN " ++ b64enc (0 :: u ++ 0 :: p) ++ CRLF
+         | Login => bs "AUTH LOGIN" ++ CRLF
+         | Xoauth2 => bs "AUTH XOAUTH2 " ++ b64enc (bs "user=" ++ u ++ [1] ++ bs "auth=Bearer " ++ p ++ [1; 1]) ++ CRLF
+         end.
+Proof. exact auth_initial_ok. Qed.
+
+(* what is sent decodes to exactly what was encoded, for all byte strings *)
+Theorem C14_b64_roundtrip : forall l : bytes, bytes_ok l = true -> b64dec (b64enc l) = Some l.
+Proof. exact b64_roundtrip. Qed.
+
+(* LOGIN: a challenge equal to one of the listed spellings in any letter case is answered with the
+   user name, resp. the password; any other prompt is answered with nothing (client error) *)
+Theorem C14_login : forall (u p c : bytes),
+  mech_response Login u p (Some c) =
+    if contains_ic c user_prompts then Ok u
+    else if contains_ic c pass_prompts then Ok p
+    else Err (e_client "Unrecognized challenge").
+Proof. reflexivity. Qed.
+
+Example C14_example_plain :
+  auth_initial Plain (bs "u") (bs "p") = Ok (bs "AUTH PLAIN AHUAcA==" ++ CRLF).
+Proof. reflexivity. Qed.
+Example C14_example_login_case : mech_response Login (bs "u") (bs "p") (Some (bs "uSeRnAmE:")) = Ok (bs "u").
+Proof. reflexivity. Qed.
+
+Print Assumptions C14_choice.
+Print Assumptions C14_only_credentials.
+Print Assumptions C14_initial_lines.
+Print Assumptions C14_b64_roundtrip.
+Print Assumptions C14_login.
